@@ -5,13 +5,15 @@ O1 == NAllSeqs
 O2 == O1 + 326
 O3 == O2 + 155
 O4 == O3 + NLongSeqs
-Count == O4 + 1
+O5 == O4 + 1
+Count == O5 + NNearMiss
 ItemAt(g) ==
   IF g <= O1 THEN AllSeqAt(g)
   ELSE IF g <= O2 THEN OrderingAt(g - O1)
   ELSE IF g <= O3 THEN OneWrongAt(g - O2)
   ELSE IF g <= O4 THEN LongSeqAt(g - O3)
-  ELSE NoDomainTypeDoc
+  ELSE IF g <= O5 THEN NoDomainTypeDoc
+  ELSE NearMissAt(g - O5)
 VARIABLE n
 INSTANCE GenBase
 =============================================================================
